@@ -137,6 +137,16 @@ Proof.
   apply Z.ltb_lt in H. split; auto with zarith.
 Qed.
 
+(* every counter starts from the constant the models use (initialisation
+   read off the source: `attempts = <CONST>` before the loop, or the argument
+   of `range` when the loop is written `for _ in range(<CONST>)`) *)
+Theorem C13_loop_counters_start_from_constants :
+  loop_find_token_init tt = MAX_SEEK_HORIZON_EXPAND /\
+  loop_find_token_reverse_init tt = MAX_SEEK_HORIZON_EXPAND /\
+  loop_tfld_init tt = MAX_TRY_FIND_WITH_DATE_ATTEMPTS /\
+  loop_put_result_init tt = MAX_QUEUE_RETRIES.
+Proof. vm_compute. repeat split. Qed.
+
 (* the counters start from positive constants *)
 Theorem C13_loop_bounds_positive :
   (0 < MAX_SEEK_HORIZON_EXPAND)%Z /\ (0 < MAX_TRY_FIND_WITH_DATE_ATTEMPTS)%Z
@@ -180,3 +190,5 @@ Print Assumptions C13_execute_semantics_strict.
 Print Assumptions C13_execute_semantics_lenient.
 Print Assumptions C13_find_token_loop_bounded.
 Print Assumptions C13_outcome_decode_iff.
+
+Print Assumptions C13_loop_counters_start_from_constants.
